@@ -210,6 +210,11 @@ def sites():
                                                     '--output-basic-input=@TMP@']),
         'free/x/basic_input_plain': ('free', ['--load=50', '--attach-load=1,1', '--output-basic-input=@TMP@']),
         'free/x/cmdline_output_repeated_attach': ('free', ['--load=50', '--attach-load=1,1', '--attach-load=1,1', '--output-cmdline=@TMP@']),
+        # a 0 V source on a numerically dead wire (its current is exactly 0) next to a live source: impedance 0/0
+        'free/x/zero_volt_source_on_dead_wire': ('free', ['-w', '4,0,0,50,0,0,1e29,0.001', '--excitation-pulse=11',
+                                                         '--excitation-voltage=1', '--excitation-voltage=0']),
+        'free/x/live_source_on_dead_wire': ('free', ['-w', '4,0,0,50,0,0,1e29,0.001', '--excitation-pulse=11',
+                                                     '--excitation-voltage=1', '--excitation-voltage=1']),
         'free/x/closed_arc_on_wire_end': ('free', ['-w', '9,5,2,0,20,1,0,20,0.001', '-a', '10,8,1,0,360,0.001',
                                                    '--geo-translate=0,0,0,20,10']),
         'curves/x/equal_keys_same_kind': ('curves', ['--geo-translate=7,0,0,1', '--geo-translate=7,0,0,1']),
